@@ -64,7 +64,7 @@ def matrix():
     # 2. not one value per input element
     for method in ('central', 'forward', 'backward', 'complex', 'multicomplex'):
         for size in (2, 3, 5):
-            for mode in ('sum_to_scalar', 'truncate', 'one_more', 'pair_for_triple'):
+            for mode in ('sum_to_scalar', 'truncate', 'one_more', 'pair_for_triple', 'twice_as_many', 'columns'):
                 for n in (0, 1, 2):
                     yield dict(kind='not_one_value_per_element', cls='Derivative', method=method, dim=size,
                                mode=mode, n=n, order=2)
@@ -270,7 +270,18 @@ def run_case(case, ctx):
             if mode == 'pair_for_triple':
                 return v[:max(size - 2, 1)] if size > 2 else v[:1]
             return None
-        if mode == 'one_more':
+        if mode in ('twice_as_many', 'columns'):
+            # a whole multiple of the number of elements, in a layout that does not line up with x: 2k values in a row, or k rows of
+            # m != k values
+            if case['method'] == 'multicomplex':
+                ctx.count('skipped_one_more_for_multicomplex')
+                return
+            if mode == 'twice_as_many':
+                f = lambda t: np.concatenate([np.exp(np.asarray(t)), np.cos(np.asarray(t))])
+            else:
+                mcols = 3 if size == 2 else 2
+                f = lambda t: np.column_stack([np.exp(np.asarray(t)), np.cos(np.asarray(t)), np.sin(np.asarray(t))][:mcols])
+        elif mode == 'one_more':
             if case['method'] == 'multicomplex':
                 ctx.count('skipped_one_more_for_multicomplex')
                 return
